@@ -648,3 +648,32 @@ func (fc *FnCtx) muFieldAddr(st *State, base Val, owner types.Type, idx int) str
 	}
 	return fc.fieldAddr(st, base, idx, token.NoPos).T
 }
+
+// checkFrameRange: copy(dst, ...) writes dst[0..n): that range must lie inside the modifies clause (or n == 0).
+func (fc *FnCtx) checkFrameRange(st *State, s Val, n string, pos token.Pos) {
+	if !fc.checkingFrame {
+		return
+	}
+	stt := s.Ty.Underlying().(*types.Slice)
+	key, _ := fc.elemsKey(stt.Elem())
+	arr := app("s-arr", s.T)
+	alts := []string{fc.isFresh(arr), app("=", n, fc.idxLit(0))}
+	for _, r := range fc.frame {
+		if r.key == "*" {
+			return
+		}
+		if r.key != key {
+			continue
+		}
+		if r.base == "" {
+			return
+		}
+		c := app("=", arr, r.base)
+		if r.lo != "" {
+			lo := app("s-off", s.T)
+			c = and(c, fc.leIdx(r.lo, lo), fc.leIdx(fc.addIdx(lo, n), r.hi))
+		}
+		alts = append(alts, c)
+	}
+	fc.assertNamed(st, or(alts...), "frame", "", "the range written by copy is covered by the modifies clause", pos)
+}
